@@ -190,7 +190,7 @@ def run(rep: Report, rng, tier: str, known: dict, search: bool = False) -> None:
 def evidence(rep: Report) -> None:
     write_evidence(
         rep,
-        rule="cases = histories: a pool of 2-4 expressions built over a common stock of sub-expression objects (50% reuse, plus expressions embedding other pool members), and a sequence of 6-12 (quick) / 10-40 (thorough) operations drawn from {at(Point), at(number), Partial late/early .at, a persistent Partial object's at/as_expression, Differential late/early .at.component, component_at, LocatedDifferential, as_expression (simplification), Derivative, calls that fail with CoordinateMissing / DomainError}; every 4th pool also gets the seven directed prefixes, every 2nd the domain-border prefixes (a point inside and a point outside the domain of the same object, through early Partial / Derivative / Differential objects and the late routes) (evaluate at p then query a sharing expression at q; fail half-way then retry; simplify then evaluate; switch a Partial to its symbolic path in between; two points in a row); each operation is compared with a fresh copy and, for evaluation/forward mode, with the heap model started from the memos actually found on the objects; non-trivial = at least 3 operations; distinct by (pool, ops)",
+        rule="cases = histories: a pool of 2-4 expressions built over a common stock of sub-expression objects (50% reuse, plus expressions embedding other pool members), and a sequence of 6-12 (quick) / 10-40 (thorough) operations drawn from {at(Point), at(number), Partial late/early .at, a persistent Partial object's at/as_expression, Differential late/early .at.component, component_at, LocatedDifferential, as_expression (simplification), Derivative, calls that fail with CoordinateMissing / DomainError}; every 4th pool also gets the seven directed prefixes, every 2nd the domain-border prefixes (a point inside and a point outside the domain of the same object, through early Partial / Derivative / Differential objects and the late routes) (evaluate at p then query a sharing expression at q; fail half-way then retry; simplify then evaluate; switch a Partial to its symbolic path in between; two points in a row); each operation is compared with a fresh copy and, for evaluation/forward mode, with the heap model started from the memos actually found on the objects; non-trivial = at least 3 operations; distinct by (pool, ops); plus histories on nested pools with sharing prefixes, int/float twin pools, long-lived objects asked 260 / 2200 times, the caller's identical Point objects, and a never-used copy in a never-used process (fork per question) for the twin / sharing histories and every seventh operation elsewhere",
         trusted=common.TRUSTED,
         assumptions=[common.ASSUME_RANGE,
                      "rewriting and symbolic differentiation are modelled on trees with flags (not on the heap); K4 (recorded finding) reported as KNOWN-FINDING when the 1000-step warning was logged"],
